@@ -137,6 +137,14 @@ def check_params_cases(ctx):
     return dis
 
 
+def spec_of(inst):
+    """Replayable description of an instance (same keys as props/c08._spec_of)."""
+    return {"kind": inst.kind, "n": inst.n, "decs": [d.word() for d in inst.decs], "full": inst.full,
+            "data_width": inst.data_width, "address_width": inst.address_width, "domain": inst.domain,
+            "m_address_widths": inst.m_address_widths, "id_width": inst.id_width,
+            "timeout": getattr(inst, "timeout", "none")}
+
+
 def _localmon_open(inst):
     w = inst.lean_open.split()
     assert w[0] in ("shared", "xbar"), inst.lean_open
@@ -180,7 +188,8 @@ def local_rules_cases(ctx, MAPS, _region_map, quick=True):
         inst = mk()
         trace, msg = _legal_trace(inst, rng, cyc)
         if msg:
-            dis.append({"instance": label, "kind": "monitor:" + msg, "trace": [list(l) for l in trace]})
+            dis.append({"instance": label, "make": spec_of(inst), "kind": "monitor:" + msg, "monitor": msg,
+                        "trace": [list(l) for l in trace]})
             continue
         ctx.lean.open(_localmon_open(inst))
         flags = ctx.lean.run(trace)
